@@ -195,11 +195,19 @@ func runC10(r *vh.Run, i int) {
 	nops := 25 + ctl.Intn(25)
 	for op := 0; op < nops && !hd.bad; op++ {
 		both(func(h *hist) { h.step() })
+		if hd.diverged && twin {
+			twin = false // a collection inside the step recognised a recorded finding on the directory store
+			r.Count("twin_stopped", 1)
+		}
 		r.Count("operations", 1)
 		hd.layoutCheck("after an operation")
 		compareTwin("after an operation")
 		if !hd.bad && ctl.Intn(12) == 0 {
 			both(func(h *hist) { h.collect() })
+			if hd.diverged && twin {
+				twin = false
+				r.Count("twin_stopped", 1)
+			}
 			if hd.restartCheck() && twin {
 				twin = false // a recorded finding surfaced at the reload: the memory twin legitimately differs from here on
 				r.Count("twin_stopped", 1)
@@ -209,7 +217,7 @@ func runC10(r *vh.Run, i int) {
 	}
 	if !hd.bad {
 		both(func(h *hist) { h.collect() })
-		if hd.restartCheck() {
+		if hd.restartCheck() || hd.diverged {
 			twin = false
 		}
 		compareTwin("after the final restart")
